@@ -520,7 +520,7 @@ func checkResolver(p *Prog, r *Report) {
 			if u, isU := rv.(*ssa.UnOp); !isU || u.Op != token.MUL {
 				okC, whyC = false, "a cache miss does not fall back to the gateway MAC"
 			} else if fv, isFV := u.X.(*ssa.FreeVar); !isFV || !strings.Contains(strings.ToLower(fv.Name()), "gateway") {
-				okC, whyC = false, "a cache miss falls back to " + sx(rv, 0)
+				okC, whyC = false, "a cache miss falls back to "+sx(rv, 0)
 			}
 		default:
 			okC, whyC = false, "cache result not tested"
@@ -583,7 +583,7 @@ func checkResolverWiring(p *Prog, r *Report) {
 				continue
 			}
 			k := 0
-			for _, s := range Paths(fn).Segs {
+			for _, s := range PathsInl(fn).Segs {
 				if !s.Has(c) {
 					continue
 				}
@@ -607,7 +607,8 @@ func checkResolverWiring(p *Prog, r *Report) {
 						res = &chain[i]
 					}
 				}
-				if !hasCacheOpt || !known {
+				_ = hasCacheOpt
+				if !known {
 					r.Viol("C11.R5", key, p.Pos(c.Pos()), "whether the resolver is installed depends on a loaded cache", "the path never consults the cache option", s.Describe(p)...)
 					continue
 				}
@@ -649,20 +650,9 @@ func checkResolverWiring(p *Prog, r *Report) {
 			continue
 		}
 		ok, why := true, ""
-		for _, s := range Paths(fn).Segs {
-			for _, c := range loads {
-				if !s.Has(c) {
-					continue
-				}
-				vk, vv := false, false
-				for _, f := range s.Facts {
-					if _, fl, isF := fieldLoad(s.Resolve(f.Cond)); isF && fl == "vpnMode" {
-						vk, vv = true, f.Truth
-					}
-				}
-				if !vk || vv {
-					ok, why = false, "the ARP cache is loaded (stdin consumed) on a path where VPN mode is not known to be off"
-				}
+		for _, c := range loads {
+			if !vpnOffAt(p, fn, c, 3) {
+				ok, why = false, "the ARP cache is loaded (stdin consumed) on a path where VPN mode is not known to be off"
 			}
 		}
 		r.Check(ok, "C11.R5", FuncName(fn)+"/vpn-skips-cache", p.Pos(fn.Pos()), "the ARP cache is loaded only when not in VPN mode", why)
@@ -701,4 +691,46 @@ func checkResolverWiring(p *Prog, r *Report) {
 	if n < 3 {
 		r.Viol("C11.R5", "resolver wiring", "-", "tcp, udp and icmp builders are found", fmt.Sprint(n))
 	}
+}
+
+// vpnOffAt: on every path of fn through instruction at, VPN mode is known to be off - established in fn
+// itself or, when fn never tests it, at every call site of fn (helpers extracted from the option parser).
+func vpnOffAt(p *Prog, fn *ssa.Function, at ssa.Instruction, depth int) bool {
+	decidedHere, allOff, through := false, true, 0
+	for _, s := range Paths(fn).Segs {
+		if !s.Has(at) {
+			continue
+		}
+		through++
+		vk, vv := false, false
+		for _, f := range s.Facts {
+			if _, fl, isF := fieldLoad(s.Resolve(f.Cond)); isF && fl == "vpnMode" {
+				vk, vv = true, f.Truth
+			}
+		}
+		if vk {
+			decidedHere = true
+			if vv {
+				allOff = false
+			}
+		} else {
+			allOff = false
+		}
+	}
+	if through > 0 && allOff {
+		return true
+	}
+	if decidedHere || depth == 0 {
+		return false // tested here, but some path through the load does not have it off
+	}
+	sites := p.CallSites(fn)
+	if len(sites) == 0 {
+		return false
+	}
+	for _, cs := range sites {
+		if cs.Parent() == fn || !vpnOffAt(p, cs.Parent(), cs, depth-1) {
+			return false
+		}
+	}
+	return true
 }
